@@ -438,8 +438,9 @@ theorem addProtocol_inv {d : BDir} {anc : List Up} {c c' : Cat} (hc : Inv c) (h 
   repeat' split at h
   all_goals first | exact absurd h fail_ne_ok | (cases h; exact hc.of_eq rfl rfl rfl rfl)
 
-theorem addTags_inv {d : BDir} {c c' : Cat} (hc : Inv c) (h : addTags d c = .ok c') : Inv c' := by
+theorem addTags_inv {d : BDir} {anc : List Up} {c c' : Cat} (hc : Inv c) (h : addTags d anc c = .ok c') : Inv c' := by
   unfold addTags at h
+  split at h; · exact absurd h fail_ne_ok
   obtain ⟨_, _, h⟩ := bind_ok h
   cases h; exact hc
 
